@@ -250,10 +250,11 @@ PROPS['C10'] = dict(
     rule=RULE, partial=[CONTINUUM, 'the certificates of C10gen were found by a CAS for the formulas of the pinned tree; a harmless algebraic rewrite keeps them valid (they end in ring), a different but equally correct derivation may need new certificates',
                         'basis clause (cylindrical/Cartesian variants): known finding K1'])
 
+C11VOL = ['C11Vol.' + t for t in ('inv_sq_expansion_ring', 'quot_expansion_ring', 'inv_sq_expansion', 'Avg.avg_quotC2', 'Avg.avg_quotT', 'd2V_matches_code', 'd2V_matches_code_neg', 'Par.integrand_taylor_bound', 'Par.thetaAvg_integrand_expansion', 'Par.surfAvg_expansion', 'Par.surfAvg_peano', 'Par.dVdpsi_hasDerivWithinAt', 'd2V_code_is_derivative', 'd2V_code_is_derivative_neg')]
 PROPS['C11'] = dict(
-    lean=['QscProofs.C11', 'QscProofs.C01'], theorems=thms('QscProofs.C11') + ['C01.r3_J_avg', 'C01.r2_J_R1'], gen=['Mercier', 'R2', 'R3'],
+    lean=['QscProofs.C11', 'QscProofs.C11Vol', 'QscProofs.C01'], theorems=thms('QscProofs.C11') + C11VOL + ['C01.r3_J_avg', 'C01.r2_J_R1'], gen=['Mercier', 'R2', 'R3'],
     corr=corr_generated(['Mercier'], orders=('r2', 'r3')), oracle=oracle_multi(oracles.oracle_C11, oracles.oracle_C11_geometric, oracles.oracle_C01, orders=('r2', 'r3')),
-    rule=RULE, partial=[CONTINUUM, "the geometric clause (d2_volume_d_psi2 = V'') is the chain [J]_2 = 0, <[J]_3> = 0 (C01, proved) + linearity of the period integral; the final integration step is checked numerically by integrating the Jacobian of the returned position vector"])
+    rule=RULE, partial=[CONTINUUM, "the geometric clause (d2_volume_d_psi2 = V'') is the chain: Boozer Jacobian of the constructed surfaces = (G + iota I)/B^2 through third order ([J]_2 = 0, <[J]_3> = 0: C01, proved) and C11Vol.d2V_code_is_derivative: the generated d2_volume_d_psi2 IS the one-sided derivative at psi = 0+ of dV/dpsi = 4 pi^2 <(G + iota I)/B^2> with the real (theta, phi) integrals (proved, O(r^3) remainder bound included); identifying the d_l_d_phi-weighted B20_mean of the code with the Boozer-angle mean of B20 is a hypothesis (hmean) and the whole chain is additionally checked numerically by integrating the Jacobian of the returned position vector"])
 
 PROPS['C12'] = dict(
     lean=['QscProofs.C12'], theorems=thms('QscProofs.C12') + ['RSing.g_coeffs_are_triple_product'], gen=['RSing'],
